@@ -37,6 +37,9 @@ pub trait Source {
   fn size(&self) -> (n: usize) ensures n == self.raw().len();
 }
 pub type BoxSource = Arc<dyn Source>;
+/// std: `impl AsRef<T> for Arc<T>`: a reference to the value behind the Arc
+pub assume_specification<T: ?Sized, A: std::alloc::Allocator>[<Arc<T, A> as AsRef<T>>::as_ref](a: &Arc<T, A>) -> (r: &T)
+  ensures r == &**a;
 pub open spec fn texts(c: Seq<BoxSource>) -> Seq<u8> decreases c.len() { if c.len() == 0 { Seq::<u8>::empty() } else { texts(c.drop_last()) + c.last().text() } }
 pub open spec fn raws(c: Seq<BoxSource>) -> Seq<u8> decreases c.len() { if c.len() == 0 { Seq::<u8>::empty() } else { raws(c.drop_last()) + c.last().raw() } }
 pub proof fn lemma_texts_take(c: Seq<BoxSource>, i: int)
